@@ -686,6 +686,49 @@ func (ts *Terms) loadAlloc(a *ssa.Alloc, fld *ssa.FieldAddr, fr *Frame, depth in
 						fields[name][t.String()] = t
 					}
 				}
+				// a nested composite literal initialised in place (T{inner: U{…}})
+				if fields[name] == nil {
+					if nt := ts.nestedLiteral(fa, fr, depth+1); nt != nil {
+						fields[name] = map[string]*Term{nt.String(): nt}
+						order = append(order, name)
+					}
+				}
+			}
+		}
+		// fields filled in by a callee the address was handed to (reply := T{…}; load(&reply))
+		if depth < 30 && frameDepth(fr) < 12 {
+			for _, r := range *a.Referrers() {
+				c, ok := r.(*ssa.Call)
+				if !ok || c.Common().IsInvoke() {
+					continue
+				}
+				g := c.Common().StaticCallee()
+				if g == nil || g.Blocks == nil || !isIrismodFunc(g) || onChain(fr, g) {
+					continue
+				}
+				for i, arg := range c.Common().Args {
+					if arg != ssa.Value(a) || i >= len(g.Params) || g.Params[i].Referrers() == nil {
+						continue
+					}
+					nfr := &Frame{Fn: g, Parent: fr, Call: c, Depth: frameDepth(fr) + 1}
+					for _, pr := range *g.Params[i].Referrers() {
+						fa, ok := pr.(*ssa.FieldAddr)
+						if !ok || fa.Referrers() == nil {
+							continue
+						}
+						name := fieldNameShort(fa.X.Type(), fa.Field)
+						for _, r2 := range *fa.Referrers() {
+							if st, ok := r2.(*ssa.Store); ok && st.Addr == ssa.Value(fa) {
+								if fields[name] == nil {
+									fields[name] = map[string]*Term{}
+									order = append(order, name)
+								}
+								t := ts.of(st.Val, nfr, depth+1)
+								fields[name][t.String()] = t
+							}
+						}
+					}
+				}
 			}
 		}
 		if len(order) > 0 {
@@ -1996,4 +2039,49 @@ func fieldOfValue(v ssa.Value, f int, fr *Frame, d int) (ssa.Value, *Frame) {
 		}
 	}
 	return nil, nil
+}
+
+// nestedLiteral: the struct value assembled through &outer.inner.f = v stores.
+func (ts *Terms) nestedLiteral(fa *ssa.FieldAddr, fr *Frame, depth int) *Term {
+	pt, ok := fa.Type().(*types.Pointer)
+	if !ok || depth > 30 || fa.Referrers() == nil {
+		return nil
+	}
+	if _, isStruct := pt.Elem().Underlying().(*types.Struct); !isStruct {
+		return nil
+	}
+	fields := map[string]map[string]*Term{}
+	var order []string
+	for _, r := range *fa.Referrers() {
+		in, ok := r.(*ssa.FieldAddr)
+		if !ok || in.Referrers() == nil {
+			continue
+		}
+		name := fieldNameShort(in.X.Type(), in.Field)
+		for _, r2 := range *in.Referrers() {
+			if st, ok := r2.(*ssa.Store); ok && st.Addr == ssa.Value(in) {
+				if fields[name] == nil {
+					fields[name] = map[string]*Term{}
+					order = append(order, name)
+				}
+				t := ts.of(st.Val, fr, depth+1)
+				fields[name][t.String()] = t
+			}
+		}
+		if fields[name] == nil {
+			if nt := ts.nestedLiteral(in, fr, depth+1); nt != nil {
+				fields[name] = map[string]*Term{nt.String(): nt}
+				order = append(order, name)
+			}
+		}
+	}
+	if len(order) == 0 {
+		return nil
+	}
+	sort.Strings(order)
+	t := &Term{Op: "struct", Name: typeShort(fa.Type()), Site: fa.Pos(), literal: true}
+	for _, n := range order {
+		t.Args = append(t.Args, mk("const", n), phiOf(fields[n]))
+	}
+	return t
 }
